@@ -12,6 +12,16 @@ func gen(r *Rng, tier string, emit Emit) {
 	if tier == "thorough" {
 		n = 6000
 	}
+	// files of 16 MiB and more (extended header): built inside the worker, implementation oracle only
+	big := [][4]uint64{{1, 0x00, 0, 0}, {2, 0x08, 24, 1}, {3, 0x10, 1, 1}, {4, 0x48, 0x1234, 0}}
+	if tier == "thorough" {
+		for k := uint64(0); k < 12; k++ {
+			big = append(big, [4]uint64{10 + k, uint64(r.Pick(0, 0x08, 0x10, 0x18, 0x20, 0x28, 0x40)), uint64(r.Intn(5000)), uint64(r.Intn(2))})
+		}
+	}
+	for _, b := range big {
+		emit("P", "p_big_identity", N(r.U64()^b[0]), N(b[1]), N(b[2]), N(b[3]))
+	}
 	for it := 0; it < n; it++ {
 		rr := r.Fork(uint64(it))
 		o := uefigen.Opts{MaxDepth: rr.Pick(0, 0, 1, 2), Strings: true, Alignments: rr.Chance(2, 3), BigBodies: rr.Chance(1, 4)}
